@@ -35,20 +35,20 @@ def _(token, succ):
     invariant(0, token == chain(succ, old(token), K),
                  forall(lambda k: implies(0 <= k and k < K, chain(succ, old(token), k) != 0 and strlen(Txt(chain(succ, old(token), k))) == 0), chain(succ, old(token), k)))
     # loop 1: the maximal run of Newline/Whitespace tokens that follows; g_k[j] is the position in that run of the j-th collected token
-    invariant(1, tokens is pre(tokens) and token == chain(succ, pre(token), K),
-                 forall(lambda k: implies(0 <= k and k < K, IsSp(chain(succ, pre(token), k))), chain(succ, pre(token), k)),
-                 forall(lambda j: implies(0 <= j and j < len(tokens), 0 <= sel(g_k, j) and sel(g_k, j) < K and tokens[j] == chain(succ, pre(token), sel(g_k, j))
+    invariant(1, tokens is pre(tokens) and token == chain(succ, chain(succ, old(token), K_loop0), K),
+                 forall(lambda k: implies(0 <= k and k < K, IsSp(chain(succ, chain(succ, old(token), K_loop0), k))), chain(succ, chain(succ, old(token), K_loop0), k)),
+                 forall(lambda j: implies(0 <= j and j < len(tokens), 0 <= sel(g_k, j) and sel(g_k, j) < K and tokens[j] == chain(succ, chain(succ, old(token), K_loop0), sel(g_k, j))
                         and strlen(Txt(tokens[j])) != 0), tokens[j]),
                  forall(lambda i, j: implies(0 <= i and i < j and j < len(tokens), sel(g_k, i) < sel(g_k, j)), (sel(g_k, i), sel(g_k, j))),
-                 forall(lambda k: implies(0 <= k and k < K and strlen(Txt(chain(succ, pre(token), k))) != 0, exists(lambda j: 0 <= j and j < len(tokens) and sel(g_k, j) == k)), chain(succ, pre(token), k)))
+                 forall(lambda k: implies(0 <= k and k < K and strlen(Txt(chain(succ, chain(succ, old(token), K_loop0), k))) != 0, exists(lambda j: 0 <= j and j < len(tokens) and sel(g_k, j) == k)), chain(succ, chain(succ, old(token), K_loop0), k)))
     ensures(result != None and fresh(result))
     # the skipped prefix consists of zero-width tokens only and ends at a visible token (or at the end)
     ensures(forall(lambda k: implies(0 <= k and k < K_loop0, chain(succ, old(token), k) != 0 and strlen(Txt(chain(succ, old(token), k))) == 0), chain(succ, old(token), k)))
     # then comes a run of K_loop1 spacing tokens, ended by a non-spacing token (or the end): nothing but spacing lies between collected tokens
-    ensures(forall(lambda k: implies(K_loop0 <= k and k < K_loop0 + K_loop1, IsSp(chain(succ, old(token), k))), chain(succ, old(token), k)))
-    ensures(not IsSp(chain(succ, old(token), K_loop0 + K_loop1)))
+    ensures(forall(lambda k: implies(0 <= k and k < K_loop1, IsSp(chain(succ, chain(succ, old(token), K_loop0), k))), chain(succ, chain(succ, old(token), K_loop0), k)))
+    ensures(not IsSp(chain(succ, chain(succ, old(token), K_loop0), K_loop1)))
     # the result is exactly the visible tokens of that run, in order
-    ensures(forall(lambda j: implies(0 <= j and j < len(result), K_loop0 <= K_loop0 + sel(g_k, j) and sel(g_k, j) < K_loop1 and result[j] == chain(succ, old(token), K_loop0 + sel(g_k, j))
+    ensures(forall(lambda j: implies(0 <= j and j < len(result), 0 <= sel(g_k, j) and sel(g_k, j) < K_loop1 and result[j] == chain(succ, chain(succ, old(token), K_loop0), sel(g_k, j))
             and strlen(Txt(result[j])) != 0 and IsSp(result[j])), result[j]))
     ensures(forall(lambda i, j: implies(0 <= i and i < j and j < len(result), sel(g_k, i) < sel(g_k, j)), (sel(g_k, i), sel(g_k, j))))
-    ensures(forall(lambda k: implies(0 <= k and k < K_loop1 and strlen(Txt(chain(succ, old(token), K_loop0 + k))) != 0, exists(lambda j: 0 <= j and j < len(result) and sel(g_k, j) == k)), chain(succ, old(token), K_loop0 + k)))
+    ensures(forall(lambda k: implies(0 <= k and k < K_loop1 and strlen(Txt(chain(succ, chain(succ, old(token), K_loop0), k))) != 0, exists(lambda j: 0 <= j and j < len(result) and sel(g_k, j) == k)), chain(succ, chain(succ, old(token), K_loop0), k)))
